@@ -22,9 +22,9 @@ type Module struct {
 	Dir string // absolute; contains go.mod
 }
 
-// NewModule creates <base>/go/src/org with a go.mod for ModRoot.
+// NewModule creates <base>/go/src/verif.test/org with a go.mod for ModRoot.
 func NewModule(base string) (*Module, error) {
-	dir := filepath.Join(base, "go", "src", "org")
+	dir := filepath.Join(base, "go", "src", "verif.test", "org") // GOPATH-like: the import path is the path below go/src
 	if err := os.MkdirAll(dir, 0o755); err != nil {
 		return nil, err
 	}
